@@ -60,6 +60,17 @@ def run_history(ops, rnd):
     for j, op in enumerate(ops, 1):
         addr, ln = op['addr'], op['len']
         data = bytes(D(j, addr, k) for k in range(ln))
+        if j > 1 and rnd.randrange(2):
+            # library use between writes: a section object is replaced by a fresh one holding the same bytes
+            n = NAMES[rnd.randrange(len(NAMES))]
+            old = getattr(g, n)
+            if n == 'map':
+                new = type(old).from_bytes(bytes(old._data), version=8, gfx=g.gfx)
+            else:
+                new = type(old).from_bytes(bytes(old._data), version=8)
+            setattr(g, n, new)
+            if n == 'gfx':
+                g.map._gfx = new
         before = snapshot(g)
         raised = False
         try:
